@@ -134,8 +134,8 @@ def segrecover_design(eng, ti):
     the repaired design must satisfy C01/C02/C03 for every torn-write subset and crash chain within the
     bounds; the pinned design (Erase = FALSE) must be rejected (negative control, thorough tier)."""
     consts = dict(N=(12, 16)[ti], MaxIdx=3, Sizes={1, 2}, MaxBatch=2, MaxCrashes=(2, 3)[ti], Erase=True,
-                  Looks=({"junk"}, {"junk", "ehdr"})[ti])
-    invs = ["C03_OpenSucceeds", "C01_AckedPresent", "C02_LatestContent", "C02_BatchAtomic", "C02_Durable"]
+                  Looks=({"junk"}, {"junk", "ehdr"})[ti], WithSeal=True, SealFromScan=False)
+    invs = ["C03_OpenSucceeds", "C01_AckedPresent", "C02_LatestContent", "C02_BatchAtomic", "C02_Durable", "C01_SealValid", "C01_SealDurable"]
     r = tlc("SegRecover", cfg_text(constants=consts, invariants=invs), timeout=(150, 1500)[ti])
     if r.error == "timeout":
         eng.stats["segrecover_timeout"] = True
@@ -150,6 +150,10 @@ def segrecover_design(eng, ti):
         eng.stats["segrecover_negative_control"] = neg.violated
         if not neg.violated:
             raise Inconclusive("SegRecover negative control: the pinned design (no erase) was not rejected")
+        neg2 = tlc("SegRecover", cfg_text(constants=dict(consts, SealFromScan=True, N=12, MaxCrashes=2, Looks={"junk"}), invariants=invs), timeout=600)
+        eng.stats["segrecover_negative_control_seal"] = neg2.violated
+        if neg2.violated != "C01_SealValid":
+            raise Inconclusive("SegRecover negative control: the pinned index-start recovery (F2) was not rejected: %s %s" % (neg2.violated, neg2.error))
 
 
 WALIMPL_INVS = ["C03_OpenSucceeds", "C03_Writable", "C01_ViewAllowed", "C01_Recovered", "C13_ExactDir", "C13_UniqueIds", "MemMatchesMeta"]
